@@ -296,6 +296,16 @@ class Intervals:
             if inner[0] == 'call' and mir.method_name(inner[1]) == 'enumerate':
                 return ((n - 1) if n else n, None)
         if it[0] == 'call' and mir.method_name(it[1]) == 'enumerate':
+            # enumerate over the first n elements of a slice (`x[..n]`, the payload of `x.get(..n)`): indices < n
+            inner = peel(it[2][0], calls=False) if it[2] else ('unknown',)
+            while inner[0] == 'call' and mir.is_transparent_call(inner[1]) and inner[2]:
+                inner = peel(inner[2][0], calls=False)
+            if inner[0] == 'call' and mir.method_name(inner[1]) == 'index' and len(inner[2]) == 2:
+                rng = peel(inner[2][1], calls=False)
+                if rng[0] == 'aggr' and rng[2].endswith('RangeTo::RangeTo'):
+                    n = self.expr_ub(dict(rng[3]).get('end'), st)
+                    if n is not None:
+                        return ((n - 1) if n else n, None)
             return (ISIZE_MAX, None)
         return None
 
